@@ -154,6 +154,9 @@ def run_subject(spec, root, hashseed=0, timeout=120, seg='0', aslr_off=True):
     res.wall = time.time() - t0
     res.rc = p.returncode
     res.stderr = (err or b'').decode('utf-8', 'replace')[-3000:]
+    if not res.timed_out and res.rc not in (0, None) and 'Timeout (' in (err or b'').decode('utf-8', 'replace'):
+        # the subject's own watchdog (faulthandler.dump_traceback_later) fired: the subject hung
+        res.timed_out = True
     if os.path.exists(op):
         with open(op) as f:
             for line in f:
